@@ -4,6 +4,7 @@ import (
 	"fmt"
 	"io"
 	"io/ioutil"
+	"regexp"
 	"strings"
 	"unicode"
 )
@@ -118,7 +119,13 @@ type lexer struct {
 	last   token // The last emitted token
 	parens int   // Number of open parenthesis
 	width  int   // Number of bytes consumed by the last call to next
+	raw    bool  // True while lexing a verbatim tag; its body is not tokenized
 }
+
+var (
+	verbatimOpenMatcher = regexp.MustCompile(`^[ \t\n]*verbatim[ \t\n]*-?%}`)
+	verbatimEndMatcher  = regexp.MustCompile(`{%-?[ \t\n]*endverbatim[ \t\n]*-?%}`)
+)
 
 // nextToken returns the next token emitted by the lexer.
 func (l *lexer) nextToken() token {
@@ -141,7 +148,7 @@ func (l *lexer) tokenize() {
 func newLexer(input io.Reader) *lexer {
 	// TODO: lexer should use the reader.
 	i, _ := ioutil.ReadAll(input)
-	return &lexer{0, 0, 1, 0, string(i), make(chan token), nil, modeNormal, token{}, 0, 0}
+	return &lexer{0, 0, 1, 0, string(i), make(chan token), nil, modeNormal, token{}, 0, 0, false}
 }
 
 func (l *lexer) next() (val string) {
@@ -516,8 +523,28 @@ func lexTagOpen(l *lexer) stateFn {
 		l.pos++
 	}
 	l.emit(tokenTagOpen)
+	l.raw = verbatimOpenMatcher.MatchString(l.input[l.pos:])
 
 	return lexExpression
+}
+
+// lexVerbatim emits everything up to the matching endverbatim tag as text.
+func lexVerbatim(l *lexer) stateFn {
+	l.raw = false
+	loc := verbatimEndMatcher.FindStringIndex(l.input[l.pos:])
+	if loc == nil {
+		l.pos = len(l.input)
+		if l.pos > l.start {
+			l.emit(tokenText)
+		}
+		l.emit(tokenEOF)
+		return nil
+	}
+	l.pos += loc[0]
+	if l.pos > l.start {
+		l.emit(tokenText)
+	}
+	return lexTagOpen
 }
 
 func lexTagClose(l *lexer) stateFn {
@@ -529,6 +556,9 @@ func lexTagClose(l *lexer) stateFn {
 	}
 	l.pos += len(delimCloseTag)
 	l.emit(tokenTagClose)
+	if l.raw {
+		return lexVerbatim
+	}
 
 	return lexData
 }
